@@ -338,6 +338,13 @@ def main():
                     except Exception as e:
                         one[name] = {'crash': type(e).__name__ + ': ' + str(e)[:120]}
                 rec['explicit'].append(one)
+            # ... and back to the submission itself: the first pattern again
+            if case['patterns']:
+                try:
+                    ms = find_matches(case['patterns'][0])
+                    rec['rerun'] = {'n': len(ms), 'bindings': [bindings(m) for m in ms]}
+                except Exception as e:
+                    rec['rerun'] = {'crash': type(e).__name__ + ': ' + str(e)[:120]}
         out.append(rec)
     json.dump(out, open(sys.argv[1], 'w'))
 
